@@ -339,7 +339,7 @@ def case_crc5(rng, tier, res):
             for _ in range(4):
                 yield
             got = seen["strobes"][n0:]
-            if len(res.desc["tokens"]) < 8:
+            if len(res.desc["tokens"]) < 4:
                 res.desc["tokens"].append({"pkt": pkt.hex(), "kind": kind})
             res.sig(pkt)
             if ok:
@@ -545,7 +545,7 @@ def case_usb2_crc16(rng, tier, res):
             b.set(ifs[who].start, 0)
             b.set(crc.rx_valid, 0)
             b.set(crc.tx_valid, 0)
-            if len(res.desc["ops"]) < 10:
+            if len(res.desc["ops"]) < 4:
                 res.desc["ops"].append({"src": src, "n": n, "style": style, "fill": fill, "restart_with_byte": with_byte})
             res.sig(src, who, style, n, fill, with_byte)
             abort_at = rng.randrange(n) if (n > 2 and rng.random() < 0.3) else None
@@ -675,7 +675,7 @@ def case_usb3_crc16(rng, tier, res):
             t += 1
             b.set(crc.clear, 0)
             abort_at = rng.randrange(n) if (n > 1 and rng.random() < 0.3) else None
-            if len(res.desc["ops"]) < 10:
+            if len(res.desc["ops"]) < 4:
                 res.desc["ops"].append({"words": n, "fill": fill, "abort_at": abort_at})
             res.sig(n, fill, abort_at)
             for k in range(n):
@@ -830,7 +830,7 @@ def case_usb3_crc32(rng, tier, res):
             yield
             b.set(crc.clear, 0)
             abort_at = rng.randrange(n) if (n > 1 and rng.random() < 0.25) else None
-            if len(res.desc["ops"]) < 10:
+            if len(res.desc["ops"]) < 4:
                 res.desc["ops"].append({"words": n, "tail_bytes": tail, "fill": fill, "abort_at": abort_at})
             res.sig(n, tail, fill, abort_at)
             aborted = False
